@@ -1,6 +1,7 @@
 import Driver.Util
 import OlricModel.DMap.Model
 import OlricModel.DMap.Evict
+import OlricModel.Cluster.Pipeline
 import Driver.Routing
 namespace Driver
 open Olric Olric.DMap
@@ -313,7 +314,20 @@ def clusterStep (s : CSt) (now : Int) (op : String) (a : List String) : Option (
                     (c', acc.2 ++ [fmtDRes res])
       | _ => (acc.1, acc.2 ++ ["bad-pipeline-cmd"])
     let (cl', outs) := (a.drop 3).foldl step (s.cl, [])
-    some ({ s with cl := cl' }, "|".intercalate outs)
+    -- the life cycle the harness walks through (Cluster/Pipeline.lean: Life)
+    let fe := fun (e : Option Pipeline.FutErr) => match e with
+      | none => "none" | some .closed => "closed" | some .notReady => "notReady" | some .executed => "executed"
+    let has := !(a.drop 3).isEmpty
+    let l0 : Pipeline.Life := {}
+    let pre := if has then fe (l0.read 0) else "-"
+    let l1 := l0.exec.1
+    let e2 := l1.exec
+    let e3 := e2.1.discard
+    let old := if has then fe (e3.1.read 0) else "-"
+    let e4 := e3.1.exec
+    let l5 := e4.1.close
+    let life := ",".intercalate [pre, fe e2.2, fe e3.2, old, fe e4.2, fe l5.exec.2, fe l5.discard.2]
+    some ({ s with cl := cl' }, "|".intercalate outs ++ " life=" ++ life)
   | "wb.del" =>
     -- wb.del <i> <P|B> <dmap> <key>: a copy removed behind the system's back
     let kind := if arg 1 == "B" then Kind.bak else Kind.prim
